@@ -816,7 +816,6 @@ Proof. vm_compute. repeat split; reflexivity. Qed.
 
 (* ---------- Spec, whole calls: the completion runs exactly once ---------- *)
 
-Definition is_nil {A} (l : list A) : bool := match l with [] => true | _ => false end.
 
 Lemma send_more_fired n tag s : fired (fst (send_more n tag s)) = fired s.
 Proof.
@@ -1035,17 +1034,6 @@ Proof.
     + intros bid Hk. split; [|exact (Hn2' bid Hk)]. specialize (Hinb [] bid Hk). now rewrite app_nil_r in Hinb.
     + split; [|exact P3]. rewrite El4. discriminate.
 Qed.
-
-(* histories of the login as the property describes it: sends and relays at any time, the event
-   exactly at most once, client responses only after it, the callback never cleared *)
-Fixpoint adm (f : bool) (os : list op) : bool :=
-  match os with
-  | [] => true
-  | OSend _ _ :: r | ORelay _ _ :: r => adm f r
-  | OResponse _ _ _ :: r => f && adm f r
-  | OFire :: r => negb f && adm true r
-  | OClear :: _ => false
-  end.
 
 Definition K (s : state) (c : nat) : Prop :=
   locals s <> [] /\
